@@ -12,7 +12,9 @@ for d in sorted(glob.glob(base + "/C*/[ab]")):
     conf = json.load(open(cf))
     if not conf.get("confirmed"): print("NOT confirmed", prop, var); continue
     sid = prop + (sa if var == "a" else sb)
-    out = os.path.join(ROOT, "seeded", sid); os.makedirs(out, exist_ok=True)
+    out = os.path.join(ROOT, "seeded", sid)
+    if os.path.exists(out + "/meta.json"): continue  # already stored (its meta.json may carry a detection block by now)
+    os.makedirs(out, exist_ok=True)
     shutil.copy(d + "/patch.diff", out + "/patch.diff"); shutil.copy(d + "/demo.rs", out + "/demo.rs")
     am = json.load(open(d + "/meta.json")) if os.path.exists(d + "/meta.json") else {}
     meta = {"id": sid, "property": prop, "round": int(rnd), "summary": am.get("summary", ""), "needs": am.get("needs", ""), "files": am.get("files", []),
